@@ -133,6 +133,8 @@ def describe_world(config, root, dirsel, stat_fail=(), unreadable=()):
             if err == "IOErr" and n in unreadable and k == "file":
                 k = "unreadable"    # stat says regular file; the handler that takes it cannot open / re-stat it
         text = read_text(fsp) if (k == "file" and n.startswith(".")) else None
+        if n in unreadable and n.startswith("."):
+            text = None             # the handler's open() of this dot file fails (injected)
         cap = read_text(fs_path(config, base + "/.cap/" + n))
         children.append({"name": n, "kind": k, "info": info, "err": err, "text": text, "cap": cap})
     return {"selector": dirsel, "children": children}
